@@ -477,7 +477,9 @@ ExecNode(n, st) ==
     [] n.k \in {"out", "echo"} /\ IsSuperOut(n.e) /\ Resolve("block", st).t = "blockdrop" /\ HasSuper(Resolve("block", st), st, 8) ->
          LET s1 == SuperRun(Resolve("block", st), st) IN
          IF s1.err # "" THEN Fail(st, s1.err)
-         ELSE Write([st EXCEPT !.m = s1.m, !.lpcnt = s1.lpcnt], s1.out)
+         \* the parent definition runs in the context of the block that asked for it: what it assigns, counts and
+         \* cycles stays (a second `block.super` renders the definition again, from where the first left off)
+         ELSE Write([s1 EXCEPT !.out = st.out, !.base = st.base, !.null = st.null, !.scopes = st.scopes], s1.out)
     [] n.k \in {"out", "echo"} ->
          LET v == Eval(n.e, st) IN
          IF IsErr(v) THEN Fail(st, v.cls)
